@@ -119,7 +119,7 @@ def run_history(case, rec, lab=None):
             exp = m.op_size(o["w"], o["h"])
         elif k == "args":
             compat = lab.args_compat(o)
-            exp = m.op_args(compat, 0 if o["kind"] == "base" else o["salt"])
+            exp = m.op_args(compat, 0 if o["kind"] == "base" else o["salt"], 3 if o["kind"] == "sub" else 0)
         elif k == "close":
             exp = m.op_close()
         if m.settings_key() != before:
